@@ -134,16 +134,23 @@ def win_handles_pass(prop, tier, seed):
     inheritance list and flags, and which handles it closes, is compared with the handles it was given."""
     import os
     from concurrent.futures import ThreadPoolExecutor
-    binp = build.build_win("asan")
+    modes = WIN_MODE[prop]
+    try:
+        bins = {m: build.build_win("asan", extra=m in ("--life", "--redirect")) for m in modes}
+    except build.Inconclusive as e:
+        # the pass calls internal functions of the Windows back-end directly; if their signatures changed it
+        # cannot be built - that must not hide what the main engines found (too few cases => inconclusive)
+        print("note: Windows boundary pass not built: %s" % str(e).splitlines()[-1][:200])
+        return [], {"win_pass_unavailable": 1, "win_handle_cases": 0}, 0
     env = dict(os.environ)
     env.update(core.SAN_ENV)
     nw = 4
 
     def work(job):
         mode, w = job
-        return core.run_timed([binp, mode, str(w), str(nw), tier, str(seed)], env, 600)
+        return core.run_timed([bins[mode], mode, str(w), str(nw), tier, str(seed)], env, 600)
     with ThreadPoolExecutor(nw) as ex:
-        outs = list(ex.map(work, [(m, w) for m in WIN_MODE[prop] for w in range(nw)]))
+        outs = list(ex.map(work, [(m, w) for m in modes for w in range(nw)]))
     obs = {"win_handle_cases": 0}
     viols = []
     mine = WIN_HANDLE_CLASSES[prop]
